@@ -104,7 +104,7 @@ fn run(ctx: &mut Ctx) -> Verdict {
         1 => (vec![Step::Chunk(hello)], true),
         _ => (vec![Step::Chunk(hello[..40].to_vec()), Step::Close(CloseKind::HalfClean)], false),
     };
-    let sc = Scenario { kind, steps, requests: usize::from(outcome_kind == 0), extra_request: false, label: format!("log capture, filter {filter:?}, outcome {outcome_kind}"), bad_credentials: bad, password: password.clone(), big_request: 0 };
+    let sc = Scenario { kind, steps, requests: usize::from(outcome_kind == 0), extra_request: false, label: format!("log capture, filter {filter:?}, outcome {outcome_kind}"), bad_credentials: bad, password: password.clone(), big_request: 0, slow_peer: false };
     ev!(ctx, "scenario {}/{} password {:?}", kind.name(), sc.label, password);
     let buf = Buf(Arc::default());
     let buf2 = buf.clone();
